@@ -132,6 +132,16 @@ fn check_n(n: usize, rec: &mut Rec) {
         }
         other => return rec.fail("C18/length-write", format!("length-delimited write(in={}, out={}) -> {:?}", n, n, other)),
     }
+    // the advertised size is the buffer's, however much of the declared length is still to come: seven
+    // bytes are left on this flow now, and buffers below, at and above that are asked about
+    for k in [1usize, 6, 7, 8, n.max(9), 65536] {
+        rec.call();
+        let m = max_input(&mut s, k);
+        if m != k {
+            return rec.fail("C18/length-max-not-n", format!("length-delimited, 7 bytes of {} left: calculate_max_input({}) = {}", n + 7, k, m));
+        }
+    }
+    rec.cov("length/asked-late-in-the-body");
 }
 
 /// One flow, many buffer sizes in a row: what was advertised for the buffer at hand must fit whatever
@@ -244,6 +254,7 @@ impl Property for P {
             ("chunked/hexdigits-of-n=3*".into(), 1000),
             ("chunked/hexdigits-of-n=4*".into(), 10000),
             ("length/n>0".into(), 10000),
+            ("length/asked-late-in-the-body".into(), 10000),
             ("chunked/http10-request".into(), 5000),
             ("chunked/caller-named-coding".into(), 3000),
             ("chunked/after-an-extra-head-write".into(), 1500),
